@@ -13,6 +13,7 @@ Reading guide
 -/
 import CBV.Lemmas.C03Calc
 import CBV.Lemmas.C03Geom
+import CBV.Lemmas.C03Mono
 
 namespace CBV.C03
 
@@ -147,6 +148,34 @@ theorem T_C03_search_total {s r L : ℚ} (hs : 0 < s) (hr : 0 < r) (hL : 0 ≤ L
   exact ⟨n, hn, searchCount_spec hL hn⟩
 
 example : (0 : ℚ) < 1 - 1 * (1 - 9 / 10) / (1 / 5) := by norm_num
+
+/-- for a fixed total expansion, one more cell makes the progression longer (relative to its first cell) and
+    hence its first cell smaller: if `a^(m-1) = T = b^m` then `1+a+…+a^(m-1) < 1+b+…+b^m`.  (Weighted AM-GM on
+    the exponents; this is what makes the count of the size+total pairs well defined.) -/
+theorem T_C03_total_mono {a b L : ℚ} {m : ℕ} (ha : 0 < a) (hb : 0 < b) (hm : 1 ≤ m) (hL : 0 < L)
+    (h : a ^ (m - 1) = b ^ m) :
+    geomSum a m < geomSum b (m + 1) ∧ firstCell L (m + 1) b < firstCell L m a := by
+  have hlt := geomSum_total_step ha hb hm h
+  refine ⟨hlt, ?_⟩
+  have hga := geomSum_pos (le_of_lt ha) (show 0 < m by omega)
+  unfold firstCell
+  exact div_lt_div_of_pos_left hL hga hlt
+
+example : (8 : ℚ) ^ (3 - 1) = 4 ^ 3 ∧ geomSum 8 3 = 73 ∧ geomSum 4 4 = 85 := by decide +kernel
+
+/-- uniqueness of the count for the size+total pairs: with `ρ m` the ratio for `m` cells (`ρ m ^ (m-1) = T`),
+    at most one `n` has "`n-1` cells do not exceed the edge, `n` cells do" -/
+theorem T_C03_size_total_unique {T L s : ℚ} {ρ : ℕ → ℚ} {hi n n' : ℕ} (hf : IsRatioFamily T ρ hi) (hs : 0 < s)
+    (hn : SizeTotalStrict L s ρ n) (hn' : SizeTotalStrict L s ρ n') (h1 : n ≤ hi) (h2 : n' ≤ hi) : n = n' :=
+  sizeTotalStrict_unique hf hs hn hn' h1 h2
+
+example : IsRatioFamily 64 (fun m => if m = 2 then 64 else if m = 3 then 8 else 4) 4 ∧
+    SizeTotalStrict 1 (1 / 80) (fun m => if m = 2 then 64 else if m = 3 then 8 else 4) 4 := by
+  constructor
+  · intro m h1 h2
+    have : m = 2 ∨ m = 3 ∨ m = 4 := by omega
+    rcases this with rfl | rfl | rfl <;> norm_num
+  · unfold SizeTotalStrict totalLen; decide +kernel
 
 /-! ### 4. the ten pairs, end to end on the model of `Chop.calculate` -/
 
